@@ -1,6 +1,6 @@
 """C01 - rendered output displays the text with exactly the reported per-character styles."""
 from .. import obs as O
-from .common import (Contract, FLAG_COMBOS, ansi_values, history, render_failures, run_cases, tier_sizes,
+from .common import (trie_case, Contract, FLAG_COMBOS, ansi_values, history, render_failures, run_cases, tier_sizes,
                      transitions, safe_obs, transition_values, small_scope_values, small_scope_on,
                      stack_values)
 
@@ -114,6 +114,11 @@ def drive(ctx, mon, tier, only_case=None):
             ctx.extra['n_small_scope_values'] = len(vals)
             for v in vals:
                 probe_value(ctx, mon, v)
+            return
+        if case == 2:
+            # every history of up to 2 (quick) / 3 (thorough) apply/remove operations: each node is rendered and judged
+            trie_case(ctx, mon, tier, 2, 3, visit=lambda v, p: probe_value(ctx, mon, v),
+                      cls=L.AnsiStr if ctx.shard % 4 == 3 else None)
             return
         profile = 'mixed' if rng.random() < 0.35 else 'wf'
         history(L, rng, ex, rng.randint(1, sz['nops']), sz['maxlen'], profile, WEIGHTS)
